@@ -69,6 +69,23 @@ def main():
         chk.note_cases({o for o in outs if o.startswith('ok')})
         stream('locale-lookup', 'lookup', codes, C.impl_lookup)
         stream('locale-territory', 'territory', terrs, C.impl_territory)
+        ok_names = [s for s in names_in if C.ref_parse(s) is not None]
+        pairs = []
+        for _ in range(3000 if big else 600):
+            a = rng.choice(ok_names)
+            r = rng.random()
+            if r < 0.3:
+                b = a
+            elif r < 0.6:
+                ll = a.split('_')[0].split('.')[0].split('@')[0]
+                b = rng.choice([ll, ll + '_' + rng.choice(T['territories']), a.replace('_', '_X', 1)[:len(a)], a.split('@')[0], a.split('.')[0]])
+            else:
+                b = rng.choice(ok_names)
+            pairs.append((a, b))
+        pairs += [('pl', 'pl_PL'), ('pl_PL', 'pl'), ('pl_PL', 'pl_DE'), ('de_DE', 'de_AT'), ('de', 'de_DE'), ('pt', 'pt_BR'), ('pt_PT', 'pt'), ('en', 'en_US'),
+                  ('pl_PL.UTF-8', 'pl'), ('pl_PL@euro', 'pl@euro'), ('xx_PL', 'xx')]
+        pairs = [p for p in pairs if C.ref_parse(p[1]) is not None]
+        stream('locale-almost-equal', 'almost', pairs, C.impl_almost, to_arg=lambda p: C.hexs(p[0]) + ' ' + C.hexs(p[1]))
         stream('locale-munch', 'munch', munch_in, C.impl_munch)
         stream('locale-name', 'name-raw', lang_names + munch_in[:1000], C.impl_name)
         dis_cli, _ = stream('locale-cli', 'cli', cli_values, C.impl_cli)
